@@ -40,6 +40,29 @@ class AssertSub(AssertionError):
 CLASSES = {'Key': KeyErr, 'Index': IndexErr, 'Assert': AssertErr}
 
 
+class Msg:
+    """what the puppets send through queues and channels: DISTINCT objects that compare EQUAL (like equal records of
+    different identity), so that a stream which finds or removes messages by equality instead of by position /
+    identity is noticed; the events record the id"""
+    __slots__ = ('id',)
+
+    def __init__(self, ident):
+        self.id = ident
+
+    def __eq__(self, other):
+        return isinstance(other, Msg)
+
+    def __hash__(self):
+        return 11
+
+    def __repr__(self):
+        return 'Msg(%d)' % self.id
+
+
+def unmsg(v):
+    return v.id if isinstance(v, Msg) else v
+
+
 class LivelockAbort(BaseException):
     """raised by the harness when one time step executes too many activations"""
 
@@ -415,14 +438,14 @@ class Puppet:
             self.emit('u', op=name, exc=self.w.enc(err), **tag)
             raise
         else:
-            self.emit('r', op=name, v=value, **tag)
+            self.emit('r', op=name, v=unmsg(value), **tag)
 
     async def op_put(self, op):
         q = self.w.queues[op['q']]
         v = self.new_item(q)
 
         async def f():
-            await q.put(v)
+            await q.put(Msg(v))
         await self.leaf(op, f, {'q': op['q'], 'v': v})
 
     async def op_qclose(self, op):
@@ -440,7 +463,7 @@ class Puppet:
         v = self.new_item(c)
 
         async def f():
-            await c.put(v)
+            await c.put(Msg(v))
         await self.leaf(op, f, {'c': op['c'], 'v': v})
 
     async def op_cclose(self, op):
@@ -498,7 +521,7 @@ class Puppet:
         async def f():
             self.xemit('xb', op['i'])
             try:
-                await pipe.transfer(op['v'], throughput=op['l'] or None)
+                await pipe.transfer(op['v'], throughput=(1e17 if op['l'] == 99 else op['l']) or None)   # 99: 'practically unlimited'
             except BaseException:
                 self.xemit('xu', op['i'])
                 raise
@@ -548,8 +571,12 @@ class Puppet:
             self.emit('u', op='flow', exc=self.w.enc(err))
             raise
         finally:
+            # (only activities that were never started are disposed of here - e.g. after a ValueError for the count;
+            # one that is still running after the call has ended must stay visible to the monitor)
+            import inspect
             for wk in workers:
-                wk.close()
+                if inspect.getcoroutinestate(wk) == inspect.CORO_CREATED:
+                    wk.close()
 
     # ------------------------------------------------------------ tickers
     async def op_mktick(self, op):
@@ -832,7 +859,7 @@ def drain_queues(world):
     async def drain(i):
         async with until(time + 1):
             while True:
-                res[i].append(await world.queues[i])
+                res[i].append(unmsg(await world.queues[i]))
     try:
         usim.run(*[drain(i) for i in sorted(world.queues)])
     except BaseException:
